@@ -232,6 +232,14 @@ class Summariser:
             return ('const', n['v'])
         if k == 'CXXNullPtrLiteralExpr':
             return ('const', 0)
+        if k in ('CXXScalarValueInitExpr', 'ImplicitValueInitExpr', 'GNUNullExpr') or \
+                (k == 'InitListExpr' and not n.get('ch')):
+            return ('const', 0)  # T{} / T(): value-initialisation of a scalar
+        if k == 'InitListExpr' and len(n.get('ch', [])) == 1:
+            return self.expr(fn, n['ch'][0], p)  # T{x}
+        if k == 'CXXReinterpretCastExpr' and n.get('ch'):
+            # pointer arithmetic behind a reinterpret_cast is in other units than the element type's
+            return ('conv', 'reinterpret', self.expr(fn, n['ch'][0], p))
         lv = self.lvalue(fn, i)
         if lv is not None:
             return self.read(fn, lv, p)
